@@ -438,6 +438,9 @@ func judgeError(what string, anyError bool, m model, want [][]string, textKind b
 		if err == nil {
 			return true, kit.Failf("%s: malformed input (the standard parser says: %v) but the codec reported success, delivering %s", what, m.err, delivered())
 		}
+		if textKind && !writerUsable(o) {
+			anyError = true // the writer's complaint about its separator may come before the parser reaches the malformed record
+		}
 		if !anyError && !errors.Is(err, rootErr(m.err)) {
 			return true, kit.Failf("%s: malformed input: the standard parser says %q, the codec returned a different error %q", what, m.err, err)
 		}
